@@ -230,6 +230,9 @@ pub fn profile() -> Profile {
     p.lead_blocks = 8;
     p.kind_w[7] = 4;
     p.low_dosc_start = true;
+    // testnet histories mostly start a few blocks below the height at which the TIPs switch on (500): a restart below
+    // it, then the activation is crossed by both lineages
+    p.warp = true;
     p
 }
 
